@@ -155,6 +155,65 @@ pub enum S {
 const SRC_OTHER_HOST: [u8; 4] = [192, 168, 1, 7];
 const SRC_OFF_SUBNET: [u8; 4] = [10, 9, 8, 7];
 
+/// The DHCP payload is cut right after its last option (no END option, no padding) and the
+/// named option is that last one, i.e. it ends exactly at the end of the datagram.
+#[derive(Clone, Copy, PartialEq, Eq, Debug, Hash)]
+pub enum Cut {
+    No,
+    Lease,
+    T1,
+    T2,
+    ServerId,
+    Mask,
+    Router,
+}
+impl Cut {
+    fn kind(self) -> Option<u8> {
+        match self {
+            Cut::No => None,
+            Cut::Lease => Some(51),
+            Cut::T1 => Some(58),
+            Cut::T2 => Some(59),
+            Cut::ServerId => Some(54),
+            Cut::Mask => Some(1),
+            Cut::Router => Some(3),
+        }
+    }
+}
+/// Re-order the options of an emitted DHCP payload so that option `last` comes last, drop the
+/// END option and everything after it.  None if the option is not in the message.
+fn cut_after(payload: &[u8], last: u8) -> Option<Vec<u8>> {
+    let mut opts: Vec<&[u8]> = vec![];
+    let mut i = 240;
+    while i < payload.len() {
+        let c = payload[i];
+        if c == 255 {
+            break;
+        }
+        if c == 0 {
+            i += 1;
+            continue;
+        }
+        if i + 1 >= payload.len() {
+            break;
+        }
+        let l = payload[i + 1] as usize;
+        if i + 2 + l > payload.len() {
+            break;
+        }
+        opts.push(&payload[i..i + 2 + l]);
+        i += 2 + l;
+    }
+    let pos = opts.iter().position(|o| o[0] == last)?;
+    let tail = opts.remove(pos);
+    let mut out = payload[..240].to_vec();
+    for o in opts {
+        out.extend_from_slice(o);
+    }
+    out.extend_from_slice(tail);
+    Some(out)
+}
+
 #[derive(Clone, Copy, PartialEq, Eq, Hash)]
 pub struct MsgSpec {
     typ: MT,
@@ -168,6 +227,7 @@ pub struct MsgSpec {
     extras: bool,
     unicast: bool,
     src: S,
+    cut: Cut,
 }
 
 const BASE_LEASE: u32 = 600;
@@ -184,6 +244,7 @@ fn base(typ: MT) -> MsgSpec {
         extras: true,
         unicast: false,
         src: S::Server,
+        cut: Cut::No,
     }
 }
 
@@ -225,6 +286,9 @@ impl std::fmt::Debug for MsgSpec {
         }
         if self.src != S::Server {
             parts.push(format!("ip-src={:?}", self.src));
+        }
+        if self.cut != Cut::No {
+            parts.push(format!("cut-after={:?}", self.cut));
         }
         write!(f, "{}}}", parts.join(" "))
     }
@@ -300,6 +364,12 @@ fn alphabet(alpha: u8, earlier: bool, cap: Option<u32>) -> Vec<MsgSpec> {
             v.push(MsgSpec { src: sc, unicast: true, ..o });
         }
     }
+    // datagram cut right after the last option (no END/padding), each candidate option last;
+    // T1/T2 need the options present: the valid pair (L/4, L/2)
+    for c in [Cut::Lease, Cut::T1, Cut::T2, Cut::ServerId, Cut::Mask, Cut::Router] {
+        let t12 = if matches!(c, Cut::T1 | Cut::T2) { T12::Valid } else { o.t12 };
+        v.push(MsgSpec { cut: c, t12, ..o });
+    }
     // ACK: base + all single deviations
     let a = base(MT::Ack);
     v.push(a);
@@ -328,6 +398,15 @@ fn alphabet(alpha: u8, earlier: bool, cap: Option<u32>) -> Vec<MsgSpec> {
     for sc in [S::Unspecified, S::OtherHost, S::OffSubnet] {
         v.push(MsgSpec { src: sc, ..a });
     }
+    for c in [Cut::Lease, Cut::T1, Cut::T2, Cut::ServerId, Cut::Mask, Cut::Router] {
+        let t12 = if matches!(c, Cut::T1 | Cut::T2) { T12::Valid } else { a.t12 };
+        v.push(MsgSpec { cut: c, t12, ..a });
+    }
+    // the lease option last, with the lease values below the documented 120 s default (both
+    // alphabets: the value is intrinsic to this variant)
+    for l in [Some(1), Some(60)] {
+        v.push(MsgSpec { cut: Cut::Lease, lease: l, ..a });
+    }
     if alpha == 0 {
         // pairs over a reduced set: lease x T1/T2 (the two dimensions that interact in
         // parse_ack), unicast delivery x tiny leases
@@ -344,6 +423,9 @@ fn alphabet(alpha: u8, earlier: bool, cap: Option<u32>) -> Vec<MsgSpec> {
         }
         v.push(MsgSpec { unicast: true, lease: Some(0), ..a });
         v.push(MsgSpec { unicast: true, lease: Some(1), ..a });
+        for l in [Some(0), Some(2), Some(u32::MAX)] {
+            v.push(MsgSpec { cut: Cut::Lease, lease: l, ..a });
+        }
         // IP source paired with two option deviations (no router: the only way to an off-subnet
         // server is gone; short lease)
         for sc in [S::Unspecified, S::OtherHost, S::OffSubnet] {
@@ -743,7 +825,14 @@ impl DhcpH {
             rebind_duration: None,
             additional_options: &extra,
         };
-        let dlen = repr.buffer_len();
+        let mut dhcp = vec![0u8; repr.buffer_len()];
+        repr.emit(&mut DhcpPacket::new_unchecked(&mut dhcp[..])).expect("emit dhcp stimulus");
+        if let Some(k) = s.cut.kind() {
+            if let Some(c) = cut_after(&dhcp, k) {
+                dhcp = c;
+            }
+        }
+        let dlen = dhcp.len();
         let ip_dst = if s.unicast { Ipv4Address::from(YI_UNI) } else { Ipv4Address::BROADCAST };
         let ip_src = Ipv4Address::from(match s.src {
             S::Server => SERVER_IP,
@@ -769,7 +858,7 @@ impl DhcpH {
             &IpAddress::Ipv4(ip_src),
             &IpAddress::Ipv4(ip_dst),
             dlen,
-            |p| repr.emit(&mut DhcpPacket::new_unchecked(p)).expect("emit dhcp stimulus"),
+            |p| p.copy_from_slice(&dhcp),
             &caps,
         );
         buf
@@ -827,13 +916,15 @@ impl DhcpH {
             };
             // LENIENT: the IPv4 source address of the frame is not among the statement's
             // acceptance conditions, so an otherwise acceptable ACK from an unexpected source
-            // (0.0.0.0, another host, off-subnet) may be honoured or ignored by the client.  A
+            // (0.0.0.0, another host, off-subnet) may be honoured or ignored by the client; the same
+            // holds for a message without END option (RFC 2132 requires one).  If the client
+            // reports Configured from it, the lease clock uses the values that are IN the message.  A
             // Configured event after it is legitimate; if it arrives while a lease is already
             // held (no event tells whether it was honoured) the client may go by either lease:
             // expiry = the later of the two (no demand if either carries no lease option) and
             // the order/attempt clauses are not judged for this lease any more.
             let holds_lease = self.m.lease.is_some() && (self.m.reported.is_some() || ctx.delivered.iter().any(|d| d.1.is_empty()));
-            if s.src != S::Server && holds_lease {
+            if (s.src != S::Server || s.cut != Cut::No) && holds_lease {
                 let old = self.m.lease.as_mut().unwrap();
                 let later = |a: Option<i64>, b: Option<i64>| match (a, b) {
                     (Some(x), Some(y)) => Some(x.max(y)),
@@ -1578,7 +1669,7 @@ pub fn run(tier: Tier) -> i32 {
     rep.assumptions.push("stimulus frames are built with smoltcp::wire emitters (trusted for building, not as oracle); what the client sends is read with an independent parser (RFC 826/951/2131 offsets); a panic inside Interface::poll is isolated with catch_unwind and reported as C18/panic/<file>".into());
     rep.assumptions.push("one dhcpv4::Socket on one Ethernet interface; the harness applies Configured/Deconfigured to the interface exactly like examples/dhcp_client.rs; device back-pressure (transmit() refusing every frame between a block-tx and an unblock-tx event) is an event dimension in the configurations marked bp: true, elsewhere the device never refuses".into());
     rep.assumptions.push("server messages deviate from a well-formed base message in ONE dimension (all values) or in the pair lease x T1/T2 (all values) / unicast x tiny lease; yiaddr values: 192.168.1.42, 255.255.255.255, 0.0.0.0, 224.0.0.1 (subnet-directed broadcast is read as 'unicast', lenient)".into());
-    rep.assumptions.push("lenient readings: the IPv4 source of a server frame is outside the statement, so an otherwise acceptable ACK from a source other than the server may be honoured or ignored (Configured after it is legitimate; arriving during a lease, the later of the two expiries counts and order/attempt clauses are dropped for that lease); expiry = arrival + lease OPTION (max_lease_duration only aims time events); ACK without lease option grants nothing checkable; renew-before-rebind only demanded when the ACK carried both or none of T1/T2; 'renew and rebind attempted before expiry' only for silent server, clock following poll_at, lease (after the max_lease cap) >= 600 s; weak form 'some renewal-type REQUEST before the address is given up' for capped lease >= 10 s; an ARP request for the server counts as renewal attempt; order/attempt verdicts only for leases during which the device accepted frames all the time, solicitation bound only demanded while the device accepts frames (reference restarts at unblock-tx); back-off bound = max(discover_timeout, initial_request_timeout << ((retries-1)/2)) + 1 s + 1 ms".into());
+    rep.assumptions.push("lenient readings: the IPv4 source of a server frame and a missing END option are outside the statement, so an otherwise acceptable ACK from a source other than the server, or cut right after its last option, may be honoured or ignored; if honoured the lease clock uses the values IN the message (Configured after it is legitimate; arriving during a lease, the later of the two expiries counts and order/attempt clauses are dropped for that lease); expiry = arrival + lease OPTION (max_lease_duration only aims time events); ACK without lease option grants nothing checkable; renew-before-rebind only demanded when the ACK carried both or none of T1/T2; 'renew and rebind attempted before expiry' only for silent server, clock following poll_at, lease (after the max_lease cap) >= 600 s; weak form 'some renewal-type REQUEST before the address is given up' for capped lease >= 10 s; an ARP request for the server counts as renewal attempt; order/attempt verdicts only for leases during which the device accepted frames all the time, solicitation bound only demanded while the device accepts frames (reference restarts at unblock-tx); back-off bound = max(discover_timeout, initial_request_timeout << ((retries-1)/2)) + 1 s + 1 ms".into());
     rep.assumptions.push("state merging: instants relative to now (all <= now equivalent), xid value / PRNG / IPv4 ident stripped (only relations between xids matter, kept in the model image)".into());
 
     // quick: full alphabet d<=5 on the two extreme configurations, d<=4 on five more (other
@@ -1654,7 +1745,7 @@ pub fn run(tier: Tier) -> i32 {
     *LABELS.lock().unwrap() = None;
     rep.cov("per_configuration", json!(per_cfg));
     rep.cov("alphabet", json!(alpha_sizes));
-    rep.cov("rule", json!("BFS over choice histories replayed on a fresh real Interface+dhcpv4::Socket; from every distinct state every enabled event: each server message of the alphabet (built from the latest client message on the wire; types OFFER/ACK/NAK/DISCOVER/INFORM/REQUEST; xid latest/earlier/foreign; chaddr own/foreign; server-id present/absent; mask /24, 255.0.255.0, absent; yiaddr unicast/broadcast/0/multicast; lease absent,0,1,2,60,600,2^32-1; T1/T2 absent,0/0,equal,inverted,>lease,T1 only,T2 only,valid,tight,(L/2,7L/8) spelled out, and in max-lease configurations (cap-1,cap),(cap,cap+1),(cap+1,L-1) plus a control lease cap-10; router/DNS present/absent; broadcast/unicast delivery; IPv4 source of the frame = server / 0.0.0.0 / another host of the subnet / an off-subnet host, for OFFER and ACK singly and paired with unicast delivery, no-router, lease 60), 4 two-frame bursts in ONE poll, ARP reply, clock to poll_at, +1 s, expiry-1us/expiry/expiry+1us (statement expiry and max_lease-capped expiry), silent-server run following poll_at to the end of the lease (ARP answered / not), block-tx / unblock-tx (bp configurations). One Interface::poll + drain of Socket::poll() per event; all oracles after every poll."));
+    rep.cov("rule", json!("BFS over choice histories replayed on a fresh real Interface+dhcpv4::Socket; from every distinct state every enabled event: each server message of the alphabet (built from the latest client message on the wire; types OFFER/ACK/NAK/DISCOVER/INFORM/REQUEST; xid latest/earlier/foreign; chaddr own/foreign; server-id present/absent; mask /24, 255.0.255.0, absent; yiaddr unicast/broadcast/0/multicast; lease absent,0,1,2,60,600,2^32-1; T1/T2 absent,0/0,equal,inverted,>lease,T1 only,T2 only,valid,tight,(L/2,7L/8) spelled out, and in max-lease configurations (cap-1,cap),(cap,cap+1),(cap+1,L-1) plus a control lease cap-10; router/DNS present/absent; broadcast/unicast delivery; datagram cut right after the last option (no END, no padding) with lease / T1 / T2 / server-id / mask / router as that last option, for OFFER and ACK, the lease-last ACK with every lease value; IPv4 source of the frame = server / 0.0.0.0 / another host of the subnet / an off-subnet host, for OFFER and ACK singly and paired with unicast delivery, no-router, lease 60), 4 two-frame bursts in ONE poll, ARP reply, clock to poll_at, +1 s, expiry-1us/expiry/expiry+1us (statement expiry and max_lease-capped expiry), silent-server run following poll_at to the end of the lease (ARP answered / not), block-tx / unblock-tx (bp configurations). One Interface::poll + drain of Socket::poll() per event; all oracles after every poll."));
 
     rep.cov("caps", json!(format!("the silent-server macro event stops after {} polls (enough for a complete 600 s lease with the ARP request repeated every second); runs that hit the cap are counted as run_silent_capped (leases of 2^32-1 s) and make no attempt verdict; no other cap", RUN_CAP)));
     // narrated samples: a full lease life cycle under each retry configuration
